@@ -16,12 +16,14 @@ package bfe_http2
 //             nothing else arrives except fields bfe adds itself (date / content-type /
 //             content-length when the handler did not set them)
 //   body      concatenated DATA == bytes accepted by Write; none for HEAD, 204, 304
-//   trailer   fields declared with "Trailer:" and set before the handler returned arrive in one
+//   trailer   fields declared with "Trailer:" (any spelling: names are case-insensitive) or with
+//             the "Trailer:" key prefix and set before the handler returned arrive in one
 //             HEADERS frame after all DATA, carrying END_STREAM, without pseudo fields
 //   end       exactly one frame carries END_STREAM and it is the last frame of the stream
 // Not judged (statement silent): order of different field names, Proxy-Authenticate /
-// Proxy-Authorization (bfe counts them as hop headers), delivery of *undeclared* trailers
-// ("Trailer:"-prefixed keys), trailers of HEAD responses, when a Flush becomes visible.
+// Proxy-Authorization (bfe counts them as hop headers), trailers with a forbidden name
+// (Content-Length, Transfer-Encoding, Trailer), trailers of HEAD responses, when a Flush becomes
+// visible. Trailers announced with the "Trailer:" key prefix count as declared (and set).
 
 import (
 	"bytes"
@@ -80,6 +82,16 @@ var c38syms = map[string]c38sym{
 	"Hmany": {name: "Hmany", op: "header", k: "X-Many", vals: []string{"small-value-0123456789-ABCDEFGH"}, when: 1, many: 700},
 	"Htrb":  {name: "Htrb", op: "header", k: "Trailer", vals: []string{"X-Tb"}, when: 1},
 	"Tbig":  {name: "Tbig", op: "header", k: "X-Tb", vals: []string{strings.Repeat("X", 17000), strings.Repeat("Z", 17000)}},
+	// trailer declaration spellings (family tdecl). Field names are case-insensitive: whatever the
+	// spelling in the Trailer value and in Header().Add, a declared-and-set trailer must arrive.
+	"Dlow":  {name: "Dlow", op: "header", k: "Trailer", vals: []string{"x-ta"}, when: 1},
+	"Dml":   {name: "Dml", op: "header", k: "trailer", vals: []string{"X-TB ,\tx-tC"}, when: 1},
+	"Dforb": {name: "Dforb", op: "header", k: "TRAILER", vals: []string{"content-length, Trailer,transfer-encoding , x-tf"}, when: 1},
+	"Va":    {name: "Va", op: "header", k: "X-Ta", vals: []string{"va"}},
+	"Vb":    {name: "Vb", op: "header", k: "x-tb", vals: []string{"Vb-1", "vb-2"}},
+	"Vc":    {name: "Vc", op: "header", k: "X-TC", vals: []string{"vc"}},
+	"Vf":    {name: "Vf", op: "header", k: "x-TF", vals: []string{"vf"}},
+	"Tundl": {name: "Tundl", op: "header", k: "Trailer:x-tu", vals: []string{"vu"}},
 	// body
 	"W0":     {name: "W0", op: "write", n: 0},
 	"W1":     {name: "W1", op: "write", n: 1},
@@ -96,24 +108,31 @@ var c38syms = map[string]c38sym{
 type c38family struct {
 	name   string
 	syms   []string
-	dq, dt int // script length (operations before the return) quick / thorough
+	dq, dt int  // script length (operations before the return) quick / thorough
+	get    bool // GET only (HEAD responses have no trailers to judge)
 }
 
 var c38families = []c38family{
 	// header filtering / lower-casing / status, little body
-	{"hdr", []string{"S204", "S404", "S404l", "Hconn", "Hka", "Hpc", "Hte", "Hup", "Hmix", "Hct", "Hpa", "Tval", "W1", "F", "R"}, 4, 5},
+	{"hdr", []string{"S204", "S404", "S404l", "Hconn", "Hka", "Hpc", "Hte", "Hup", "Hmix", "Hct", "Hpa", "Tval", "W1", "F", "R"}, 4, 5, false},
 	// write sizes x flush placement x content-length x status
-	{"body", []string{"S200", "S204", "S304", "S404", "S404l", "Hcl0", "Hcl1", "Hcl4097", "W0", "W1", "W4096", "W4097", "F", "R"}, 4, 6},
+	{"body", []string{"S200", "S204", "S304", "S404", "S404l", "Hcl0", "Hcl1", "Hcl4097", "W0", "W1", "W4096", "W4097", "F", "R"}, 4, 6, false},
 	// trailers declared / undeclared / value set or not x body x flush x body-less status
-	{"trl", []string{"S204", "Htr", "Tval", "Tund", "Hcl1", "W1", "W4097", "F", "R"}, 5, 7},
+	{"trl", []string{"S204", "Htr", "Tval", "Tund", "Hcl1", "W1", "W4097", "F", "R"}, 5, 7, false},
 	// everything that changes the shape of the response, short
 	// header / trailer blocks of 2-3 frames (CONTINUATION) x {no body, small body, HEAD, 204} x flush
-	{"big", []string{"S204", "Hb17k", "Hb33k", "Hmany", "Htrb", "Tbig", "W1", "F", "R"}, 4, 5},
-	{"mix", []string{"S304", "S404", "Hconn", "Hte", "Hmix", "Hcl1", "Htr", "Tval", "Tund", "W0", "W4097", "F", "R"}, 3, 5},
+	{"big", []string{"S204", "Hb17k", "Hb33k", "Hmany", "Htrb", "Tbig", "W1", "F", "R"}, 4, 5, false},
+	{"mix", []string{"S304", "S404", "Hconn", "Hte", "Hmix", "Hcl1", "Htr", "Tval", "Tund", "W0", "W4097", "F", "R"}, 3, 5, false},
+	// spelling of trailer declarations x when the value is set x body / flush / body-less status:
+	// Trailer elements in lower / UPPER / mixed case, lists with OWS, several Trailer lines,
+	// forbidden names in the list, values added under differently spelled keys, the
+	// "Trailer:"-prefix announcement with a lower-case suffix
+	{"tdecl", []string{"S204", "Dlow", "Dml", "Dforb", "Va", "Vb", "Vc", "Vf", "Tundl", "W1", "F", "R"}, 4, 5, true},
 }
 
 var c38connSpecific = map[string]bool{"connection": true, "keep-alive": true, "proxy-connection": true, "transfer-encoding": true, "upgrade": true}
 var c38unjudged = map[string]bool{"proxy-authenticate": true, "proxy-authorization": true}
+var c38forbiddenTrailer = map[string]bool{"transfer-encoding": true, "content-length": true, "trailer": true}
 var c38bfeAdds = map[string]bool{"date": true, "content-type": true, "content-length": true}
 
 // c38model is the reference model of what the handler said.
@@ -391,10 +410,14 @@ func c38check(r *vk.Run, id string, e *h2env, h *h2handler, m *c38model) (shape 
 			expT[k] = v
 		}
 	}
-	undeclared := map[string]bool{}
-	for k := range m.live {
-		if strings.HasPrefix(k, "trailer:") {
-			undeclared[strings.TrimPrefix(k, "trailer:")] = true
+	// trailers announced through the "Trailer:" key prefix (bfe_http2.TrailerPrefix) count as
+	// declared when the handler returns; their value is the value stored under the prefixed key
+	announced := map[string]bool{}
+	for k, v := range m.live {
+		if strings.HasPrefix(k, "trailer:") && len(v) > 0 {
+			n := strings.TrimPrefix(k, "trailer:")
+			announced[n] = true
+			expT[n] = v
 		}
 	}
 	var trailerFrames []int
@@ -427,7 +450,13 @@ func c38check(r *vk.Run, id string, e *h2env, h *h2handler, m *c38model) (shape 
 			got, ok := gotT[k]
 			switch {
 			case !ok:
-				r.Violation("trailer:missing:"+cls, id, fmt.Sprintf("%s; declared trailer %q=%s did not arrive", desc, k, c38q(v)))
+				c := cls
+				if announced[k] && fs[0].EndStream {
+					// one root cause: END_STREAM of the response HEADERS is decided before the
+					// prefix-announced trailers are promoted
+					c = "prefix-announced:end-stream-on-headers"
+				}
+				r.Violation("trailer:missing:"+c, id, fmt.Sprintf("%s; declared trailer %q=%s did not arrive", desc, k, c38q(v)))
 			case c38join(got) != c38join(v):
 				r.Violation("trailer:value", id, fmt.Sprintf("%s; declared trailer %q=%s arrived as %s", desc, k, c38q(v), c38q(got)))
 			}
@@ -437,13 +466,13 @@ func c38check(r *vk.Run, id string, e *h2env, h *h2handler, m *c38model) (shape 
 			switch {
 			case k != strings.ToLower(k):
 				r.Violation("trailer:not-lower-case", id, fmt.Sprintf("%s; trailer name %q", desc, k))
-			case want, undeclared[k]:
+			case want, c38forbiddenTrailer[k]: // forbidden names: statement silent
 			default:
 				r.Violation("trailer:extra:"+c38signame(k), id, fmt.Sprintf("%s; trailer %q=%s was not declared+set by the handler", desc, k, c38q(v)))
 			}
 		}
-		if len(undeclared) > 0 && len(expT) == 0 && len(trailerFrames) == 0 {
-			r.Add("obs_undeclared_trailer_dropped", 1)
+		if len(expT) == 0 && len(trailerFrames) > 0 && len(gotT) == 0 {
+			r.Violation("trailer:empty-block", id, fmt.Sprintf("%s; a trailer block arrived although no declared trailer has a value", desc))
 		}
 	}
 
@@ -458,7 +487,7 @@ func c38check(r *vk.Run, id string, e *h2env, h *h2handler, m *c38model) (shape 
 	switch {
 	case nES == 0:
 		c := cls
-		if !isHead && len(declared) > 0 && len(expT) == 0 && len(undeclared) == 0 {
+		if !isHead && len(declared) > 0 && len(expT) == 0 {
 			// one root cause whatever the status / body: a trailer block with no field
 			c = "declared-trailers-never-set"
 		}
@@ -582,7 +611,11 @@ func c38exec(t *testing.T, r *vk.Run, f c38family, depth int, ch *vk.Chooser, nt
 	h2run(t, nil, false, func(e *h2env) {
 		e.recv()
 		m := &c38model{method: "GET", live: map[string][]string{}, uses: map[string]int{}}
-		if ch.Choose(2) == 1 {
+		methods := 2
+		if f.get {
+			methods = 1
+		}
+		if ch.Choose(methods) == 1 {
 			m.method = "HEAD"
 		}
 		if ch.Skipped {
